@@ -1792,6 +1792,7 @@ func (s *Server) clearExpiredRetainedMessages(now int64) {
 
 		if expired || enforced {
 			s.Topics.Retained.Delete(filter)
+			atomic.StoreInt64(&s.Info.Retained, int64(s.Topics.Retained.Len()))
 			s.hooks.OnRetainedExpired(filter)
 		}
 	}
